@@ -239,6 +239,14 @@ func GenCase(r *core.Rand, pr Profile) []string {
 			ops = append(ops, genX(r, pr, false, true))
 		}
 	case 1: // MITM configured, tunnel carries plain HTTP
+		if r.Chance(1, 6) { // ... or nothing at all: the client hangs up right after the 200
+			ops = append(ops, "conn mode=seq listener="+r.Pick("mitm", "shapedmitm")+" shutdown=0 quiet=1")
+			for i := 0; i < r.Intn(2); i++ {
+				ops = append(ops, genX(r, pr, false, false))
+			}
+			ops = append(ops, fmt.Sprintf("cmitm tls=%s rq=pass rs=%s", b01(r.Bool()), r.Pick("pass", "err")))
+			break
+		}
 		ops = append(ops, "conn mode=seq listener="+r.Pick("mitm", "mitm", "shapedmitm")+" shutdown=0")
 		rq, rs := genMods(r, pr)
 		ops = append(ops, fmt.Sprintf("cmitm tls=0 rq=%s rs=%s", rq, rs))
